@@ -2,6 +2,7 @@
 #include "error_code.h" // for SocketError
 
 #include <cassert> // for assert
+#include <cerrno> // for EINTR
 #include <limits> // for std::numeric_limits
 
 namespace sockpuppet {
@@ -21,11 +22,6 @@ int DoPoll(pollfd *pfds, size_t count, int timeoutMs)
 #endif // _WIN32
 }
 
-int DoPoll(pollfd pfd, int timeoutMs)
-{
-  return DoPoll(&pfd, 1, timeoutMs);
-}
-
 int ToMsec(Duration timeout)
 {
   // clamp instead of narrowing: a wait beyond the range of int must not
@@ -35,9 +31,40 @@ int ToMsec(Duration timeout)
   return static_cast<int>(count > limit ? limit : (count < -limit ? -limit : count));
 }
 
+bool Interrupted()
+{
+#ifdef _WIN32
+  return false;
+#else
+  return (errno == EINTR);
+#endif // _WIN32
+}
+
+// a handled signal interrupts poll; keep waiting within the given timeout
+int DoPollUninterrupted(pollfd *pfds, size_t count, Duration timeout)
+{
+  if(timeout.count() <= 0) { // unlimited or zero remains unchanged
+    int result;
+    do {
+      result = DoPoll(pfds, count, ToMsec(timeout));
+    } while((result < 0) && Interrupted());
+    return result;
+  }
+
+  DeadlineLimited deadline(timeout);
+  for(;;) {
+    auto result = DoPoll(pfds, count, ToMsec(deadline.Remaining()));
+    if((result >= 0) || !Interrupted()) {
+      return result;
+    }
+    deadline.Tick();
+  }
+}
+
 bool Wait(SOCKET fd, short events, Duration timeout)
 {
-  if(auto result = DoPoll(pollfd{fd, events, 0}, ToMsec(timeout))) {
+  auto pfd = pollfd{fd, events, 0};
+  if(auto result = DoPollUninterrupted(&pfd, 1U, timeout)) {
     if(result < 0) {
       throw std::system_error(
           SocketError(),
@@ -64,7 +91,7 @@ bool WaitWritable(SOCKET fd, Duration timeout)
 
 bool Wait(std::vector<pollfd> &pfds, Duration timeout)
 {
-  if(auto result = DoPoll(pfds.data(), pfds.size(), ToMsec(timeout))) {
+  if(auto result = DoPollUninterrupted(pfds.data(), pfds.size(), timeout)) {
     if(result < 0) {
       throw std::system_error(
           SocketError(),
